@@ -107,6 +107,8 @@ pub fn generate(rng: &mut Rng, property: &str, deep: bool) -> BScn {
         },
         initial_start_with: rng.chance(0.3),
         start_disabled: rng.chance(0.1),
+        selector_inserted_later: selector && rng.chance(0.15),
+        selector_animator_prebuilt: selector && rng.chance(0.2),
         second: second.clone(),
         extra_entity: if rng.chance(if property == "C19" { 0.35 } else { 0.15 }) {
             // often the same timeline as the main entity starts with, so that both end together
@@ -122,6 +124,11 @@ pub fn generate(rng: &mut Rng, property: &str, deep: bool) -> BScn {
                 },
                 rng.chance(0.5),
             ))
+        } else {
+            None
+        },
+        orphan: if rng.chance(0.12) {
+            Some((rng.usize_below(n_tls), rng.chance(0.5)))
         } else {
             None
         },
@@ -189,12 +196,30 @@ pub fn generate(rng: &mut Rng, property: &str, deep: bool) -> BScn {
     let mut ended = false;
     let mut just_ended = false;
     let mut frames = Vec::new();
-    for _ in 0..n_frames {
+    let insert_selector_at = if cfg.selector_inserted_later {
+        Some(rng.usize_below(n_frames.min(12)))
+    } else {
+        None
+    };
+    let mut selector_present = cfg.selector && !cfg.selector_inserted_later;
+    if cfg.selector && !selector_present {
+        // until the selector arrives the prebuilt animator (if any) plays its own timeline
+        cur_tl = if cfg.selector_animator_prebuilt { cfg.initial_tl } else { None };
+    }
+    for frame_no in 0..n_frames {
         let mut ops = Vec::new();
         let mut fault: &'static str = "none";
+        if insert_selector_at == Some(frame_no) {
+            ops.push(BOp::InsertSelector);
+            selector_present = true;
+            cur_key = cfg.initial_key;
+            cur_tl = cfg.keys[cfg.initial_key as usize];
+            pos_ns = 0;
+            ended = false;
+        }
         // user: key assignments
         let p_k = if just_ended { p_key.max(p_after_end) } else { p_key };
-        if cfg.selector && rng.chance(p_k) {
+        if cfg.selector && selector_present && rng.chance(p_k) {
             let burst = if rng.chance(p_burst) { rng.range(2, 3) } else { 1 };
             for _ in 0..burst {
                 let k = if rng.chance(p_dup) {
@@ -249,7 +274,9 @@ pub fn generate(rng: &mut Rng, property: &str, deep: bool) -> BScn {
         if rng.chance(p_retarget) {
             let tl = rng.usize_below(n_tls);
             // hot-swap only while the animation is not over; otherwise swap and reset
-            let reset = ended || rng.chance(0.5);
+            // (a swap without reset after the end is legal: the animator then stays Ended and its
+            // position must stay put; the Ended clauses about the *new* timeline do not apply)
+            let reset = (ended && rng.chance(0.8)) || rng.chance(0.5);
             ops.push(BOp::SetTimeline {
                 tl,
                 reset,
@@ -390,6 +417,7 @@ pub fn shrink_candidates(s: &BScn) -> Vec<BScn> {
         });
         push(&|c| c.extra_entity = None);
         push(&|c| c.mirror = None);
+        push(&|c| c.orphan = None);
         push(&|c| c.chain = None);
         push(&|c| {
             if let Some(ch) = c.chain.as_mut() {
@@ -406,6 +434,7 @@ pub fn shrink_candidates(s: &BScn) -> Vec<BScn> {
             }
         });
         push(&|c| c.start_disabled = false);
+        push(&|c| c.selector_animator_prebuilt = false);
         push(&|c| c.initial_start_with = false);
         push(&|c| {
             let all = legal_sequences(c.selector, c.second.is_some());
@@ -465,8 +494,10 @@ pub fn size(s: &BScn) -> usize {
     n += s.cfg.second.is_some() as usize * 3;
     n += s.cfg.extra_entity.is_some() as usize * 3;
     n += s.cfg.mirror.is_some() as usize * 3;
+    n += s.cfg.orphan.is_some() as usize * 3;
     n += s.cfg.chain.as_ref().map(|c| 1 + c.len()).unwrap_or(0);
     n += s.cfg.start_disabled as usize + s.cfg.initial_start_with as usize;
+    n += s.cfg.selector_inserted_later as usize * 2 + s.cfg.selector_animator_prebuilt as usize;
     n += (s.cfg.order.sequence != legal_sequences(s.cfg.selector, s.cfg.second.is_some())[0]) as usize
         + s.cfg.order.other_plugin_first as usize
         + s.cfg.order.register_before_plugin as usize;
